@@ -22,8 +22,10 @@ def fortran_float(text):
         raise ValueError(f'not a Fortran number: {text!r}')
     mant, exp1, exp2 = match.groups()
     exp = exp1 if exp1 is not None else exp2
-    return float(mant) * (10.0 ** int(exp) if exp is not None else 1.0) \
-        if exp is not None else float(mant)
+    if exp is None:
+        return float(mant)
+    # let float() do the (correctly rounded) decimal conversion
+    return float(f'{mant}e{int(exp)}')
 
 
 def nuclide_name(zaid):
